@@ -18,6 +18,9 @@
 // Go-side oracles (independent of the model):
 //
 //	C10 key=<site func>.success-with-partial-effect   nil error although a write failed and the effect differs
+//	                                                  (at once, or - latent - in the answers during a fault-free
+//	                                                  follow-up of the history, or in the raw database content)
+//	C10 key=<Op>.no-answer-after-failure.<what>       a query / the retry does not return after the failed operation
 //	C10 key=<Op>.state-changed-after-rollback         an observable differs after the rolled-back failure
 //	C10 key=<Op>.retry-differs                        retry result/state differs from the fault-free twin
 package faultops
@@ -56,6 +59,9 @@ type world interface {
 	observeRunning() []string
 	observeFresh() []string
 	finalProbe() []string
+	// followUp continues the history after the target operation without faults (mutating the world) and returns
+	// what the queries answer on the way; nil if the world has no follow-up
+	followUp() []string
 	dump() string
 }
 
@@ -186,6 +192,8 @@ type twin struct {
 	running, fresh []string
 	preFresh       []string
 	final          []string
+	followup       []string // answers during the fault-free continuation of the history (tx world)
+	dump           string   // raw database content after the operation
 	extra          string
 	memUnstable    bool
 	err            error
@@ -289,6 +297,8 @@ func computeTwin(base, kind string, seed int64, desc string) *twin {
 	t.running = s.w.observeRunning()
 	t.fresh = s.w.observeFresh()
 	t.final = s.w.finalProbe()
+	t.dump = s.w.dump()
+	t.followup = s.w.followUp() // last: it changes the state
 	return t
 }
 
@@ -502,6 +512,24 @@ func firstDiff(a, b []string) string {
 	return ex[cl[0]]
 }
 
+// timed runs f in its own goroutine and reports whether it returned within d (the goroutine is left behind
+// otherwise: the caller must not touch what f writes).
+func timed(d time.Duration, f func()) bool {
+	done := make(chan struct{})
+	go func() {
+		defer close(done)
+		f()
+	}()
+	tm := time.NewTimer(d)
+	defer tm.Stop()
+	select {
+	case <-done:
+		return true
+	case <-tm.C:
+		return false
+	}
+}
+
 func clean(s string) string { return strings.ReplaceAll(s, "; ", ", ") }
 
 func validShape(p string) bool {
@@ -581,8 +609,24 @@ func (r *runner) fault(desc string, k, n int, prog string, tail bool) (string, s
 	if err != nil {
 		return "harness-error " + err.Error(), ""
 	}
-	defer s.close()
+	abandoned := false
+	defer func() {
+		if abandoned {
+			// goroutines blocked inside the manager hold read transactions: closing would block as well
+			os.Remove(s.path)
+			return
+		}
+		s.close()
+	}()
+	obsStart := time.Now()
 	preRun := s.w.observeRunning()
+	// limit for every query batch / retry after the failed operation: a manager that left a mutex locked on the
+	// error path never answers again - reported as an oracle violation instead of hanging (or dying from Go's
+	// deadlock detector).  Generous: 200 x what the same queries took before the operation, at least 8 s.
+	limit := 200 * time.Since(obsStart)
+	if limit < 8*time.Second {
+		limit = 8 * time.Second
+	}
 	if t.preFresh == nil {
 		t.preFresh = s.w.observeFresh() // a function of the base image and the candidate set only: computed once per op
 	}
@@ -621,6 +665,20 @@ func (r *runner) fault(desc string, k, n int, prog string, tail bool) (string, s
 		postRun := s.w.observeRunning()
 		postFresh := s.w.observeFresh()
 		same := res == t.res && !t.failed && firstDiff(postRun, t.running) == "" && firstDiff(postFresh, t.fresh) == ""
+		latent := ""
+		if fired && same {
+			// a write failed, the operation reported success and every query answers as after the fault-free run:
+			// look for a LATENT partial effect - continue the history without faults exactly as the twin did
+			// (tx world: remove the remaining unconfirmed transactions one by one) and compare the answers on the
+			// way; last resort, the raw database content
+			if d := firstDiff(s.w.followUp(), t.followup); d != "" {
+				latent = "in the fault-free follow-up of the history (remaining unconfirmed transactions removed one by one): " + d
+			} else if r.kind == "tx" && dump1 != t.dump {
+				// (tx store only: its writes are a function of the history; waddrmgr rows carry time.Now())
+				latent = "raw database content differs from the fault-free run (no query shows it yet)"
+			}
+			same = latent == ""
+		}
 		if !fired {
 			if same {
 				return "res=ok-nofault disk=- mem=- retry=-", ""
@@ -633,6 +691,9 @@ func (r *runner) fault(desc string, k, n int, prog string, tail bool) (string, s
 		d := firstDiff(postFresh, t.fresh)
 		if d == "" {
 			d = firstDiff(postRun, t.running)
+		}
+		if d == "" && latent != "" {
+			d = latent
 		}
 		if d == "" {
 			d = fmt.Sprintf("result %q vs %q", res, t.res)
@@ -652,7 +713,16 @@ func (r *runner) fault(desc string, k, n int, prog string, tail bool) (string, s
 	if fp0 != fp1 {
 		mem = "changed"
 	}
-	postRun := s.w.observeRunning()
+	noAnswer := func(what string) (string, string) {
+		abandoned = true
+		viol = append(viol, fmt.Sprintf("C10 key=%s.no-answer-after-failure.%s: %s k=%d/%d (%s) failed and was rolled back, afterwards %s did not return within the time limit (200 x the duration of the same queries before the operation, at least 8 s): the manager no longer answers as before, the retry cannot succeed",
+			opName, what, desc, k, n, failedSite, what))
+		return fmt.Sprintf("res=err disk=%s mem=%s retry=differs", disk, mem), strings.Join(viol, "; ")
+	}
+	var postRun []string
+	if !timed(limit, func() { postRun = s.w.observeRunning() }) {
+		return noAnswer("queries")
+	}
 	postFresh := preFresh
 	if disk != "same" {
 		// a reopened manager is a function of the database content alone: only re-queried when that changed
@@ -671,7 +741,11 @@ func (r *runner) fault(desc string, k, n int, prog string, tail bool) (string, s
 		}
 	}
 	// retry without fault, compare with the fault-free twin
-	res2, rerr2 := s.w.runTarget(desc)
+	var res2 string
+	var rerr2 error
+	if !timed(limit, func() { res2, rerr2 = s.w.runTarget(desc) }) {
+		return noAnswer("retry")
+	}
 	retry := "same"
 	var whys [][2]string // (class, text)
 	switch {
@@ -680,7 +754,11 @@ func (r *runner) fault(desc string, k, n int, prog string, tail bool) (string, s
 	case res2 != t.res:
 		whys = append(whys, [2]string{"result", fmt.Sprintf("retry result %q vs fault-free %q", res2, t.res)})
 	}
-	if cl, ex := diffObs(s.w.observeRunning(), t.running); len(cl) > 0 {
+	var retryRun []string
+	if !timed(limit, func() { retryRun = s.w.observeRunning() }) {
+		return noAnswer("queries-after-retry")
+	}
+	if cl, ex := diffObs(retryRun, t.running); len(cl) > 0 {
 		for _, c := range cl {
 			whys = append(whys, [2]string{c, "running manager after retry vs fault-free twin " + ex[c]})
 		}
